@@ -22,7 +22,7 @@ PROPS["C12"] = {
     "level_note": "Trusted: rowan's text()/preorder traversal, my shape extraction; nesting totality claimed only up to depth 512 per construct.",
     "assumptions": ["nesting depth bound D=512 per construct on a 2 MiB stack (half the parser's own MAX_EXPRESSION_DEPTH)",
                     "trivia insertion only at lexer token boundaries of inputs that parse without errors"],
-    "design_ref": "DESIGN.md section 3, C12",
+    "design_ref": "DESIGN.md section 8 (as built; plan in section 3), C12",
 }
 
 PROPS["C04"] = {
@@ -44,7 +44,7 @@ PROPS["C04"] = {
                   "while timing only check output types and absence of panics/errors.",
     "assumptions": ["total trace time < 2^61 ns so the runtime clock itself cannot overflow",
                     "ET after a TOF delay / TP pulse has expired may be anything in [0,PT] (IEC holds PT, docs/specs/08 diagrams drop to 0)"],
-    "design_ref": "DESIGN.md section 3, C04",
+    "design_ref": "DESIGN.md section 8 (as built; plan in section 3), C04",
 }
 
 PROPS["C10"] = {
@@ -71,7 +71,7 @@ PROPS["C10"] = {
                   "outside this technique. Exhaustive over the observed call sequence of each sampled save, not over all snapshots.",
     "assumptions": ["std::fs reaches the kernel through libc symbols the shim interposes (verified per run: a dry run with < 2 intercepted calls is inconclusive)",
                     "memory budget for decoding: 128 bytes per input byte + 1 MiB"],
-    "design_ref": "DESIGN.md section 3, C10",
+    "design_ref": "DESIGN.md section 8 (as built; plan in section 3), C10",
 }
 
 PROPS["C11"] = {
@@ -97,7 +97,7 @@ PROPS["C11"] = {
                   "container legitimately asks for is outside the O(|b|) clause and would exhaust the machine); counted in observed.apply_skipped_image_over_64MiB.",
     "assumptions": ["memory budget 64 bytes per input byte + 1 MiB for decode+validate+metadata",
                     "apply only observed on the four seed runtimes"],
-    "design_ref": "DESIGN.md section 3, C11",
+    "design_ref": "DESIGN.md section 8 (as built; plan in section 3), C11",
 }
 
 PROPS["C07"] = {
@@ -122,7 +122,7 @@ PROPS["C07"] = {
     "level_note": "Trusted: the 60-line image model in harness/src/engines/c07.rs. With overlapping %Q bindings any covering binding's encoding is accepted per bit.",
     "assumptions": ["process image pre-sized to 32 bytes per area (as bytecode resource metadata would)", "driver i owns input bytes [16i,16i+16)"],
     "coverage_extra": {"exhaustive_subspace": "direct-address sweep (observed.direct_address_cells_checked) is complete for byte offsets 0..15"},
-    "design_ref": "DESIGN.md section 3, C07",
+    "design_ref": "DESIGN.md section 8 (as built; plan in section 3), C07",
 }
 
 PROPS["C08"] = {
@@ -144,7 +144,7 @@ PROPS["C08"] = {
                   "cycles execute again. Thorough enumerates the product completely (5715 points); quick covers as much as its budget allows in shuffled order.",
     "level_note": "Exhaustive for this program family only; other programs are covered by C01's outcome monitor. Driver error policy wrappers above the Runtime API are not exercised.",
     "assumptions": ["safe-state maps are well-typed for their address size"],
-    "design_ref": "DESIGN.md section 3, C08",
+    "design_ref": "DESIGN.md section 8 (as built; plan in section 3), C08",
 }
 
 PROPS["C06"] = {
@@ -166,7 +166,7 @@ PROPS["C06"] = {
     "level_note": "Tasks have either INTERVAL>0 or SINGLE, never both (the statement leaves 'last activation' open for the combination). SINGLE is sampled once per "
                   "cycle after the input latch in model and code.",
     "assumptions": ["runtime clock starts at 0 and task timers start at registration time"],
-    "design_ref": "DESIGN.md section 3, C06",
+    "design_ref": "DESIGN.md section 8 (as built; plan in section 3), C06",
 }
 
 PROPS["C18"] = {
@@ -191,7 +191,7 @@ PROPS["C18"] = {
     "level_note": "hmi.write is exercised for its role check only (the default HMI customization is read-only, so its effect is never reached). Queued/forced writes are observed by "
                   "cycling a statement-free probe runtime attached to the same DebugControl. shutdown is observed on a real resource thread held at its start gate.",
     "assumptions": ["pairing never issues admin tokens (requested admin is capped to engineer) - taken from observation of the store, used only to rank credentials"],
-    "design_ref": "DESIGN.md section 3, C18",
+    "design_ref": "DESIGN.md section 8 (as built; plan in section 3), C18",
 }
 
 PROPS["C19"] = {
@@ -216,7 +216,7 @@ PROPS["C19"] = {
                   "and disk and a fresh open_source equal the last success.",
     "level_note": "set_active_project / browse_directory are project-selection features outside the listed file operations and are not called. Session expiry uses hook H4 (injected clock).",
     "assumptions": ["the snapshot walker and the marker strings are the trusted base", "writers re-open after every attempt (well-behaved optimistic clients)"],
-    "design_ref": "DESIGN.md section 3, C19",
+    "design_ref": "DESIGN.md section 8 (as built; plan in section 3), C19",
 }
 
 _GEN_RULE = ("programs: (a) systematic single-feature cells - every binary operator x every pair of the 10 numeric types x boundary operands (min, min+1, -1, 0, 1, 2, max-1, max; "
@@ -242,7 +242,7 @@ PROPS["C01"] = {
                   "non-termination only when the statement counter (hook H1) exceeds the program's static step bound.",
     "level_note": "Programs that call ASSERT_* may fail their assertions. Only programs for which TestHarness::from_source returns Ok count as accepted.",
     "assumptions": ["10 s wall-clock execution deadline per cycle is only a backstop; termination is judged on counted statements"],
-    "design_ref": "DESIGN.md section 3, C01",
+    "design_ref": "DESIGN.md section 8 (as built; plan in section 3), C01",
 }
 
 PROPS["C02"] = {
@@ -265,7 +265,7 @@ PROPS["C02"] = {
                   "operator precedence/associativity, VAR_IN_OUT (plain, through array elements / struct fields / nested FBs, and aliased), by-value inputs, default values of omitted inputs, initial values of FB inputs/outputs, EN/ENO gating of functions and FBs (also from nested callers) and output bindings (to variables, array elements, struct fields) are covered by 11 "
                   "hand-derived semantic cells (harness/src/engines/c02cells.rs, 68 expected values worked out from IEC Table 71 and the by-reference rule) that run in every tier.",
     "assumptions": ["the reference evaluator is the trusted base", "value of a FOR control variable after the loop is not compared (re-assigned by the generated program)"],
-    "design_ref": "DESIGN.md section 3, C02",
+    "design_ref": "DESIGN.md section 8 (as built; plan in section 3), C02",
 }
 
 PROPS["C03"] = {
@@ -282,7 +282,7 @@ PROPS["C03"] = {
                   "element, struct field, parameter, FB input/output/state, FOR control) so a drifting slot identifies the write path.",
     "level_note": "Configuration-level globals are not walked (their declared types are not public); I/O latching is covered by C07's typed comparisons, debugger writes by C18's probe runtime.",
     "assumptions": ["declared types are read from the runtime's own lowered definitions (ProgramDef.vars / Param.type_id + TypeRegistry)"],
-    "design_ref": "DESIGN.md section 3, C03",
+    "design_ref": "DESIGN.md section 8 (as built; plan in section 3), C03",
 }
 
 PROPS["C05"] = {
@@ -302,7 +302,7 @@ PROPS["C05"] = {
                   "output image, error). std's RandomState differs per process and per thread, so any HashMap-ordered emission or iteration that reaches an observable would differ.",
     "level_note": "Only nondeterminism sources that vary between processes/threads on one machine (hash seeds, ASLR, thread, wall clock, environment size) are exercised.",
     "assumptions": ["digests use FNV over canonical renderings; instance ids are not part of the rendering"],
-    "design_ref": "DESIGN.md section 3, C05",
+    "design_ref": "DESIGN.md section 8 (as built; plan in section 3), C05",
 }
 
 PROPS["C09"] = {
@@ -324,7 +324,7 @@ PROPS["C09"] = {
     "level_note": "RETAIN members declared inside FB types are not generated (the property text speaks of global or program-level variables). The power cycle uses a new Runtime in the same process: "
                   "only the retain file carries state.",
     "assumptions": ["the copy of retained variables into the shadow uses the public storage API (set_global / set_instance_var)"],
-    "design_ref": "DESIGN.md section 3, C09",
+    "design_ref": "DESIGN.md section 8 (as built; plan in section 3), C09",
 }
 
 PROPS["C13"] = {
@@ -345,7 +345,7 @@ PROPS["C13"] = {
                   "the expression at every 3rd offset, and analyze() summaries; every query batch is issued twice (idempotence). Raw SymbolId/TypeId numbers are never compared.",
     "level_note": "The fresh database is loaded in ascending FileId order. The LSP document store above the database is covered by C14.",
     "assumptions": ["TRUST_HIR_SALSA_EVENT_METRICS=1 only enables counters; it does not change query results"],
-    "design_ref": "DESIGN.md section 3, C13",
+    "design_ref": "DESIGN.md section 8 (as built; plan in section 3), C13",
 }
 
 PROPS["C14"] = {
@@ -365,7 +365,7 @@ PROPS["C14"] = {
                   "split a surrogate pair, documentSymbol selection ranges must cover the symbol's name. O3: prepareRename at every identifier start returns exactly that identifier's range.",
     "level_note": "Only valid ranges are sent (what a conforming editor sends). The server binary is the workspace's trust-lsp built from the working tree into /verif/target/repo.",
     "assumptions": ["the UTF-16 editor model in harness/src/lsp.rs (lines split on LF, CR belongs to the terminator) is the trusted base"],
-    "design_ref": "DESIGN.md section 3, C14",
+    "design_ref": "DESIGN.md section 8 (as built; plan in section 3), C14",
 }
 
 PROPS["C15"] = {
@@ -386,7 +386,7 @@ PROPS["C15"] = {
                   "character boundaries, not overlap, and preserve the same token sequence.",
     "level_note": "Comments are compared line-wise with surrounding blanks trimmed (re-indenting continuation lines of a block comment is layout). Vendor profiles need a workspace config file and are not exercised.",
     "assumptions": ["trust_syntax::lex is the token oracle (its own totality/losslessness is C12)"],
-    "design_ref": "DESIGN.md section 3, C15",
+    "design_ref": "DESIGN.md section 8 (as built; plan in section 3), C15",
 }
 
 PROPS["C16"] = {
@@ -407,7 +407,7 @@ PROPS["C16"] = {
     "level_note": "goto_definition is trusted only for occurrences the rename is about (renamed ones and same-named ones). Behaviour is not compared when the new name already exists elsewhere in the project "
                   "(name-neutral comparison would be ambiguous); capture is then decided by the binding map and diagnostics.",
     "assumptions": ["projects are error-free before the rename (others are skipped and counted)"],
-    "design_ref": "DESIGN.md section 3, C16",
+    "design_ref": "DESIGN.md section 8 (as built; plan in section 3), C16",
 }
 
 PROPS["C17"] = {
@@ -438,7 +438,7 @@ PROPS["C17"] = {
                   "blocked (not starved) by the trace ending in hook.wait. Remote-attach sessions of the adapter (stop_remote.rs) are not driven.",
     "assumptions": ["trace lines are appended while the debug mutex is held (true for every trace_debug call in control.rs)", "interleavings are those the OS scheduler and the injected delays produce, not all"],
     "env": {},
-    "design_ref": "DESIGN.md section 3, C17",
+    "design_ref": "DESIGN.md section 8 (as built; plan in section 3), C17",
 }
 
 PROPS["C20"] = {
@@ -465,5 +465,5 @@ PROPS["C20"] = {
                   "(run_resource_loop without shared globals) has the same command/stop structure and is not driven separately. StdClock/ScaledClock resources are not driven.",
     "assumptions": ["SharedGlobals::get and ResourceControl::state are the observation boundary", "ResourceCommand::Snapshot is answered in command order (it is handled in the same drain loop)"],
     "env": {},
-    "design_ref": "DESIGN.md section 3, C20",
+    "design_ref": "DESIGN.md section 8 (as built; plan in section 3), C20",
 }
